@@ -120,6 +120,20 @@ def true_pixel_area(d, ix, iy):
     return ellipse_pixel_area(cx, cy, a, b, c, s, D(ix) - D('0.5'), D(ix) + D('0.5'), D(iy) - D('0.5'), D(iy) + D('0.5'))
 
 
+def corners_on_ellipse(d, box):
+    """pixel corners (half-integer lattice points of the mask box) that lie on the ellipse to within 1e-9 in the
+    normalised squared radius - the inputs of the kernel's `on1/on2/on3` branches (its own tolerance is 1e-10)."""
+    cx, cy, a, b, c, s = [float(x) for x in shape_params(d)]
+    out = []
+    for ix in range(box[0], box[1] + 1):
+        for iy in range(box[2], box[3] + 1):
+            x, y = ix - 0.5 - cx, iy - 0.5 - cy
+            u_, v_ = (c * x + s * y) / a, (-s * x + c * y) / b
+            if abs(u_ * u_ + v_ * v_ - 1) < 1e-9:
+                out.append((ix - 0.5, iy - 0.5))
+    return out
+
+
 def boundary_in_pixel(d, ix, iy, nsamp=3000, refine=400):
     """(length of the boundary curve inside the pixel, number of connected pieces), by sampling.
 
@@ -258,8 +272,8 @@ def true_extent(d):
 
 class Check(PropertyCheck):
     id = 'C03'
-    lean_targets = ['RegionsVerif.Props.C03', 'RegionsVerif.Props.C03Area']
-    namespaces = ['RegionsVerif.Props.C03']
+    lean_targets = ['RegionsVerif.Props.C03', 'RegionsVerif.Props.C03Area', 'RegionsVerif.Props.C03Ellipse']
+    namespaces = ['RegionsVerif.Props.C03', 'RegionsVerif.Props.C03E']
     rule = ('circles and ellipses with radii / semi-axes 1e-3..1e3 pixels, axis ratios to 1:100, all angles, generic and half-integer '
             'centres; whole to_mask(exact) grids with up to ~56 sampled pixels each (boundary, interior, exterior) and single pixels; '
             'sub-pixel convergence on circles/ellipses/rotated rectangles/simple polygons for n in {1,2,3,5,8,12,20}, sampled over the hull of the mask box and the true extent (pixels the mask does not cover count as 0). Non-trivial = at least one sampled pixel strictly between 0 and 1.')
@@ -271,8 +285,12 @@ class Check(PropertyCheck):
                    'Cython is not installed: the compiled .so is what runs']
     validated_only = ['circle: the area identity, the range [0,1] and the sum = pi r^2 are THEOREMS about the real-number instance of the kernel model '
                       '(Props/C03Area); what stays validated is that the IEEE-double evaluation of the same text is within 1e-8 of the real value',
-                      'ellipse: mask value = area of (shape ∩ pixel) within 1e-8 for partially covered pixels (the whole triangle/unit-circle routine), '
-                      'values in [0,1], mask sum = analytic area', 'sub-pixel convergence bound']
+                      'ellipse: the Float instance of the kernel model (Gen/EllipseExactFloat) is compared cell by cell with the compiled kernel (1e-12); '
+                      'over the reals, Props/C03Ellipse proves cell value = area(pixel ∩ ellipse)/(dx dy) in [0,1] for every pixel whose two unit-frame '
+                      'triangles are `Good` (all vertices inside-or-on; 2 in/1 out; 1 in/2 out; all out incl. the recursion) and REFUTES it at '
+                      'on-circle vertices with entering edges (F3a/F3b); what stays validated: triangles with a vertex in the 1e-10 ring or on the '
+                      'circle with an outside vertex, tiny edges, the double evaluation (1e-8), mask sum = analytic area',
+                      'sub-pixel convergence bound']
 
     def translate(self):
         import subprocess, sys, os
@@ -291,13 +309,39 @@ class Check(PropertyCheck):
                 c = [rng.randint(-3, 3) + rng.choice([0.0, 0.5]), rng.randint(-3, 3) + rng.choice([0.0, 0.5])]
             else:
                 c = [rng.uniform(-5, 5), rng.uniform(-5, 5)]
+            # each coordinate on its own may sit on the pixel lattice (integer / half-integer) while the other is generic
+            m_ = rng.random()
+            if m_ < 0.15:
+                c[0] = rng.randint(-3, 3) + rng.choice([0.0, 0.5])
+            elif m_ < 0.3:
+                c[1] = rng.randint(-3, 3) + rng.choice([0.0, 0.5])
             if kind == 'circle':
                 d = {'kind': 'circle', 'c': c, 'r': scale * rng.uniform(0.5, 1.5) if not nice else scale * rng.choice([0.5, 1.0, 1.5]), 'include': 'absent'}
             else:
                 ratio = rng.choice([1.0, 1.0 + 3e-6, 1.0 - 2e-6, 1.3, 3.0, 10.0, 100.0])
                 w = 2 * scale * rng.uniform(0.7, 1.4)
                 d = {'kind': 'ellipse', 'c': c, 'w': w, 'h': max(w / ratio, 2e-3), 'angle': G.rangle(rng), 'include': 'absent'}
-            cases.append({'kind': 'exact/' + kind, 'region': d, 'pick': rng.randrange(1 << 30)})
+            cases.append(G.add_history(rng, {'kind': 'exact/' + kind, 'region': d, 'pick': rng.randrange(1 << 30)}, prob=0.3))
+        # a pixel corner EXACTLY on the ellipse (the kernel has separate `on` branches, tolerance 1e-10 in the
+        # normalised squared radius): rational points of the unit circle, pixel corners at half-integers
+        cases.append({'kind': 'exact/ellipse', 'pick': 1, 'on_corner': True,
+                      'region': {'kind': 'ellipse', 'c': [0.2, 0.1], 'w': 1.0, 'h': 1.0, 'angle': [0.0, 'deg'], 'include': 'absent'}})
+        cases.append({'kind': 'exact/ellipse', 'pick': 2, 'on_corner': True,
+                      'region': {'kind': 'ellipse', 'c': [0.5 - 0.6 / 1.3, 0.5 - 0.8 / 0.9], 'w': 2 / 1.3, 'h': 2 / 0.9,
+                                 'angle': [0.0, 'deg'], 'include': 'absent'}})
+        for _ in range(14 if tier == 'quick' else 600):
+            a, b, h = rng.choice([(3, 4, 5), (4, 3, 5), (5, 12, 13), (12, 5, 13), (8, 15, 17), (15, 8, 17), (7, 24, 25), (24, 7, 25),
+                                  (20, 21, 29), (1, 0, 1), (0, 1, 1)])
+            pu, qu = rng.choice([-1, 1]) * a / h, rng.choice([-1, 1]) * b / h
+            rx = rng.choice([0.4, 0.5, 0.75, 1.0, 1.25, 1 / 1.3, 1 / 0.9, 2.0, 2.5, 3.0])
+            ry = rng.choice([0.4, 0.5, 0.75, 1.0, 1.25, 1 / 1.3, 1 / 0.9, 2.0, 2.5, 3.0])
+            deg = rng.choice([0.0, 0.0, 0.0, 90.0, 180.0, 30.0, 45.0, rng.uniform(-180, 180)])
+            ct, st = math.cos(math.radians(deg)), math.sin(math.radians(deg))
+            kx, ky = rng.randint(-2, 2) + 0.5, rng.randint(-2, 2) + 0.5
+            ux, uy = pu * rx, qu * ry
+            c = [kx - (ct * ux - st * uy), ky - (st * ux + ct * uy)]
+            cases.append({'kind': 'exact/ellipse', 'pick': rng.randrange(1 << 30), 'on_corner': True,
+                          'region': {'kind': 'ellipse', 'c': c, 'w': 2 * rx, 'h': 2 * ry, 'angle': [deg, 'deg'], 'include': 'absent'}})
         m = 25 if tier == 'quick' else 800
         for _ in range(m):
             kind = rng.choice(['circle', 'ellipse'])
@@ -306,7 +350,7 @@ class Check(PropertyCheck):
                 d = {'kind': 'circle', 'c': c, 'r': rng.uniform(0.6, 6.0), 'include': 'absent'}
             else:
                 d = {'kind': 'ellipse', 'c': c, 'w': rng.uniform(1.5, 9.0), 'h': rng.uniform(1.0, 6.0), 'angle': G.rangle(rng), 'include': 'absent'}
-            cases.append({'kind': 'converge/' + kind, 'region': d, 'pick': rng.randrange(1 << 30), 'n': rng.choice([1, 2, 3, 5, 8, 12])})
+            cases.append(G.add_history(rng, {'kind': 'converge/' + kind, 'region': d, 'pick': rng.randrange(1 << 30), 'n': rng.choice([1, 2, 3, 5, 8, 12])}, prob=0.3))
         for _ in range(16 if tier == 'quick' else 500):
             kind = rng.choice(['rectangle', 'polygon'])
             c = [rng.uniform(-2, 2), rng.uniform(-2, 2)]
@@ -346,7 +390,7 @@ class Check(PropertyCheck):
         return [(int(j), int(i)) for (j, i) in pick(partial, 40) + pick(ones, 8) + pick(zeros, 8)]
 
     def real(self, case):
-        reg = G.build(case['region'])
+        reg = G.build_case(case)
         # the same object has been asked for a coarser mask before (a convergence loop n = 1, 2, 4, … does that)
         reg.to_mask(mode='center')
         if case['kind'].startswith('converge'):
@@ -404,7 +448,7 @@ class Check(PropertyCheck):
     def requests(self, case):
         if case['kind'] not in ('exact/circle', 'exact/ellipse'):
             return []
-        reg = G.build(case['region'])
+        reg = G.build_case(case)
         m = reg.to_mask(mode='exact')
         b = m.bbox
         box = [int(b.ixmin), int(b.ixmax), int(b.iymin), int(b.iymax)]
@@ -436,6 +480,15 @@ class Check(PropertyCheck):
                 return False
         return True
 
+    def finding_match(self, finding, violation):
+        # F3a / F3b: the `on`-vertex branches of overlap_area_triangle_unit_circle; only for an ellipse one of whose
+        # pixel corners (a corner of the offending pixel when the violation names one) lies on the ellipse
+        if finding.get('kind') in ('ellipse_exact_on_vertex_low', 'ellipse_exact_on_vertex_high'):
+            return (violation.get('kind') in ('exact_value_wrong', 'exact_out_of_range', 'exact_sum_not_area', 'uncovered_not_zero', 'covered_not_one')
+                    and violation.get('corner_on_ellipse') is True
+                    and violation.get('sign') == finding['kind'].rsplit('_', 1)[1])
+        return finding.get('kind') == violation.get('kind')
+
     # ------------------------------------------------------------------ oracle
     def oracle(self, case, real):
         V = []
@@ -451,18 +504,33 @@ class Check(PropertyCheck):
             tol_sum = 1e-8 * max(real['n_partial'], 1) + 1e-9 * real['area']
             if abs(real['sum'] - real['area']) > tol_sum:
                 bad('exact_sum_not_area', f'sum={real["sum"]} area={real["area"]}')
+            n_wrong = 0
             for (j, i, vb) in real['pixels']:
                 v = unbits(vb)
                 t = true_pixel_area(d, box[0] + i, box[2] + j)
                 if abs(D(v) - t) > D('1e-8'):
                     bad('exact_value_wrong', f'pixel ({box[0] + i},{box[2] + j}) value {v!r} true {float(t)!r}')
-                    break
+                    V[-1]['sign'] = 'low' if D(v) < t else 'high'
+                    V[-1]['pixel'] = [box[0] + i, box[2] + j]
+                    n_wrong += 1
+                    if d['kind'] != 'ellipse' or n_wrong >= 8:
+                        break
+                    continue
                 if t >= 1 - D('1e-30') and v != 1.0 and abs(v - 1.0) > 1e-12:
                     bad('covered_not_one', f'pixel ({box[0] + i},{box[2] + j}) value {v!r}')
                     break
                 if t <= D('1e-30') and v != 0.0 and abs(v) > 1e-12:
                     bad('uncovered_not_zero', f'pixel ({box[0] + i},{box[2] + j}) value {v!r}')
                     break
+            if V and d['kind'] == 'ellipse':
+                on = corners_on_ellipse(d, box)
+                for v in V:
+                    v['corner_on_ellipse'] = bool(on) if 'pixel' not in v else any(
+                        abs(cx - v['pixel'][0]) <= 0.5 and abs(cy - v['pixel'][1]) <= 0.5 for (cx, cy) in on)
+                    if v['kind'] == 'exact_sum_not_area':
+                        v['sign'] = 'low' if real['sum'] < real['area'] else 'high'
+                    elif v['kind'] == 'exact_out_of_range':
+                        v['sign'] = 'high' if real['max'] > 1 else 'low'
         else:
             n = case['n']
             samples = [(box[0] + i, box[2] + j, unbits(vb)) for (j, i, vb) in real['pixels']] + \
